@@ -172,6 +172,25 @@ func (p *IdentityProvider) ssoHandleFunc(w http.ResponseWriter, r *http.Request)
 		},
 	)
 
+	// a signature has to be carried the way the used binding defines it, otherwise nobody verified it
+	checkerInstance.WithLogicStep(
+		func() error {
+			if authRequestForm.Binding == PostBinding && authRequestForm.Sig != "" {
+				err = fmt.Errorf("signature parameter is not supported with binding %s", PostBinding)
+				return err
+			}
+			if authRequestForm.Binding == RedirectBinding &&
+				signaturePostProvided(func() *xml_dsig.SignatureType { return authNRequest.Signature })() {
+				err = fmt.Errorf("signature in the message is not supported with binding %s", RedirectBinding)
+				return err
+			}
+			return nil
+		},
+		func() {
+			response.sendBackResponse(r, w, response.makeFailedResponse(StatusCodeRequestDenied, fmt.Errorf("failed to verify signature: %w", err).Error(), p.TimeFormat))
+		},
+	)
+
 	// work out used acs url and protocolbinding for response
 	checkerInstance.WithValueStep(
 		func() {
